@@ -15,8 +15,28 @@ import (
 	"verifharness/hx"
 )
 
-func subSchema() *hx.Schema {
+// subSchema: with abstract, events come in two object types behind an interface and a union, and two
+// more subscription fields return those (the type of every single event decides what its subscriber's
+// selection gives).
+func subSchema(abstract bool) *hx.Schema {
 	idArg := func() []*hx.Arg { return []*hx.Arg{{Name: "id", Type: hx.Named("String").NN()}} }
+	if abstract {
+		return &hx.Schema{Types: []*hx.TypeDef{
+			{Kind: hx.KEnum, Name: "Kind", Values: []*hx.EnumValue{{Name: "ALERT"}, {Name: "INFO"}}},
+			{Kind: hx.KInterface, Name: "Thing", Fields: []*hx.Field{{Name: "id", Type: hx.Named("String")}, {Name: "n", Type: hx.Named("Int")}}},
+			{Kind: hx.KObject, Name: "Event", Interfaces: []string{"Thing"}, Fields: []*hx.Field{
+				{Name: "id", Type: hx.Named("String")}, {Name: "n", Type: hx.Named("Int")}, {Name: "tags", Type: hx.ListOf(hx.Named("String"))},
+				{Name: "inner", Type: hx.Named("Event")}, {Name: "kind", Type: hx.Named("Kind")}, {Name: "f", Type: hx.Named("Float")}, {Name: "more", Type: hx.ListOf(hx.Named("Event"))}}},
+			{Kind: hx.KObject, Name: "Note", Interfaces: []string{"Thing"}, Fields: []*hx.Field{
+				{Name: "id", Type: hx.Named("String")}, {Name: "n", Type: hx.Named("Int")}, {Name: "text", Type: hx.Named("String")},
+				{Name: "about", Type: hx.Named("Thing")}, {Name: "items", Type: hx.ListOf(hx.Named("Item"))}}},
+			{Kind: hx.KUnion, Name: "Item", Members: []string{"Event", "Note"}},
+			{Kind: hx.KObject, Name: "Query", Fields: []*hx.Field{{Name: "a", Type: hx.Named("Int")}}},
+			{Kind: hx.KObject, Name: "Subscription", Fields: []*hx.Field{
+				{Name: "watch", Type: hx.Named("Event"), Args: idArg()}, {Name: "listen", Type: hx.Named("Event"), Args: idArg()},
+				{Name: "things", Type: hx.Named("Thing"), Args: idArg()}, {Name: "items", Type: hx.Named("Item"), Args: idArg()}}},
+		}}
+	}
 	return &hx.Schema{Types: []*hx.TypeDef{
 		{Kind: hx.KEnum, Name: "Kind", Values: []*hx.EnumValue{{Name: "ALERT"}, {Name: "INFO"}}},
 		{Kind: hx.KObject, Name: "Event", Fields: []*hx.Field{
@@ -29,6 +49,34 @@ func subSchema() *hx.Schema {
 }
 
 const firstEvent = 3
+
+// addNotes appends 1-3 Note nodes (abstract histories only).
+func addNotes(t *rapid.T, g *hx.Graph) {
+	first := len(g.Nodes)
+	k := rapid.IntRange(1, 3).Draw(t, "nNotes")
+	for i := 0; i < k; i++ {
+		g.Nodes = append(g.Nodes, &hx.Node{ID: first + i, Type: "Note", F: map[string]hx.Val{}})
+	}
+	ref := func(label string) hx.Val {
+		if rapid.IntRange(0, 3).Draw(t, label+"nil") == 0 {
+			return hx.Nil()
+		}
+		return hx.Ref(firstEvent + rapid.IntRange(0, len(g.Nodes)-firstEvent-1).Draw(t, label))
+	}
+	for i := 0; i < k; i++ {
+		nd := g.Nodes[first+i]
+		lab := fmt.Sprintf("note%d", i)
+		nd.F["id"] = hx.Str(fmt.Sprintf("note-%d", i))
+		nd.F["n"] = hx.I32(int32(rapid.IntRange(-5, 5).Draw(t, lab+"n")))
+		nd.F["text"] = hx.Str(rapid.SampledFrom([]string{"", "t", "two words"}).Draw(t, lab+"text"))
+		nd.F["about"] = ref(lab + "about")
+		var items []hx.Val
+		for j := 0; j < rapid.IntRange(0, 2).Draw(t, lab+"nitems"); j++ {
+			items = append(items, ref(fmt.Sprintf("%sitem%d", lab, j)))
+		}
+		nd.F["items"] = hx.List(items...)
+	}
+}
 
 func subGraph(t *rapid.T) *hx.Graph {
 	g := &hx.Graph{Root: 0, Nodes: []*hx.Node{
@@ -143,13 +191,29 @@ type Op struct {
 type c19Case struct {
 	Graph    *hx.Graph `json:"graph"`
 	Strategy string    `json:"strategy"`
+	Abstract bool      `json:"abstract,omitempty"` // events of two object types behind an interface and a union
 	ListSeed int       `json:"list_seed"`
 	Ops      []Op      `json:"ops"`
 }
 
 func genCaseC19(rt *rapid.T) *c19Case {
 	c := &c19Case{Strategy: rapid.SampledFrom([]string{"R", "X", "A"}).Draw(rt, "eventStrategy"), Graph: subGraph(rt), ListSeed: rapid.IntRange(0, 1<<16).Draw(rt, "listSeed")}
-	schema := subSchema()
+	if c.Strategy == "X" && rapid.Bool().Draw(rt, "abstract") {
+		c.Abstract = true
+		addNotes(rt, c.Graph)
+	}
+	schema := subSchema(c.Abstract)
+	var eventNodes []int
+	for _, nd := range c.Graph.Nodes {
+		if nd.Type == "Event" {
+			eventNodes = append(eventNodes, nd.ID)
+		}
+	}
+	// a subscriber on a field returning Event must not be sent a Note: abstract subscriptions and the
+	// events meant for them use identifiers of their own, and once a concrete subscription matching
+	// every identifier was made only Event nodes are published
+	absPool := []string{"t", "u", "t1", "tu", "u2"}
+	catchAll := false
 	n := rapid.IntRange(5, 40).Draw(rt, "steps")
 	subs := 0
 	for i := 0; i < n; i++ {
@@ -167,8 +231,19 @@ func genCaseC19(rt *rapid.T) *c19Case {
 				op.Pattern = rapid.SampledFrom([]string{"a", "b", ""}).Draw(rt, lab+"prefix")
 			}
 			op.FailAt = rapid.SliceOfNDistinct(rapid.IntRange(1, 4), 0, 2, rapid.ID[int]).Draw(rt, lab+"failPlan")
-			op.Sels, op.Frags = exec.GenSelection(rt, schema, "Event", exec.Profile{MaxDepth: rapid.IntRange(1, 3).Draw(rt, lab+"depth")}, lab+"sel")
 			op.Field = rapid.SampledFrom([]string{"watch", "listen"}).Draw(rt, lab+"field")
+			ret := "Event"
+			if c.Abstract && rapid.IntRange(0, 2).Draw(rt, lab+"abstractField") != 0 {
+				op.Field = rapid.SampledFrom([]string{"things", "items"}).Draw(rt, lab+"absField")
+				ret = map[string]string{"things": "Thing", "items": "Item"}[op.Field]
+				op.Pattern = rapid.SampledFrom(absPool).Draw(rt, lab+"absPattern")
+				if op.Wildcard {
+					op.Pattern = rapid.SampledFrom([]string{"t", "u"}).Draw(rt, lab+"absPrefix")
+				}
+			} else if op.Wildcard && op.Pattern == "" {
+				catchAll = true
+			}
+			op.Sels, op.Frags = exec.GenSelection(rt, schema, ret, exec.Profile{MaxDepth: rapid.IntRange(1, 3).Draw(rt, lab+"depth"), Abstract: c.Abstract}, lab+"sel")
 			if subs > 1 && rapid.IntRange(0, 3).Draw(rt, lab+"reuse") == 0 {
 				// an application that keeps the parsed subscription request and resolves it once per client
 				op.ReuseOf = rapid.IntRange(1, subs-1).Draw(rt, lab+"reuseOf")
@@ -196,10 +271,24 @@ func genCaseC19(rt *rapid.T) *c19Case {
 			}
 			c.Ops = append(c.Ops, op)
 		case "publish":
+			if c.Abstract && rapid.Bool().Draw(rt, lab+"absEvent") {
+				op := Op{Kind: kind, ID: rapid.SampledFrom(absPool).Draw(rt, lab+"absEventID")}
+				if catchAll {
+					op.Event = rapid.SampledFrom(eventNodes).Draw(rt, lab+"event")
+				} else {
+					op.Event = firstEvent + rapid.IntRange(0, len(c.Graph.Nodes)-firstEvent-1).Draw(rt, lab+"anyEvent")
+				}
+				c.Ops = append(c.Ops, op)
+				continue
+			}
 			c.Ops = append(c.Ops, Op{Kind: kind, ID: rapid.SampledFrom(idPool).Draw(rt, lab+"eventID"),
-				Event: firstEvent + rapid.IntRange(0, len(c.Graph.Nodes)-firstEvent-1).Draw(rt, lab+"event")})
+				Event: rapid.SampledFrom(eventNodes).Draw(rt, lab+"event")})
 		default:
-			c.Ops = append(c.Ops, Op{Kind: kind, ID: rapid.SampledFrom(idPool).Draw(rt, lab+"unsubID")})
+			pool := idPool
+			if c.Abstract {
+				pool = append(append([]string{}, idPool...), absPool...)
+			}
+			c.Ops = append(c.Ops, Op{Kind: kind, ID: rapid.SampledFrom(pool).Draw(rt, lab+"unsubID")})
 		}
 	}
 	return c
@@ -208,7 +297,10 @@ func genCaseC19(rt *rapid.T) *c19Case {
 // runHistory executes a history against ggql and the list model.
 func runHistory(cc *c19Case) (ds []hx.Discrepancy, traits map[string]bool, hist []string) {
 	traits = map[string]bool{}
-	c := &exec.Case{Schema: subSchema(), Graph: cc.Graph, ListSeed: cc.ListSeed}
+	c := &exec.Case{Schema: subSchema(cc.Abstract), Graph: cc.Graph, ListSeed: cc.ListSeed}
+	if cc.Abstract {
+		c.Register = []string{"Event", "Note"}
+	}
 	for _, n := range c.Graph.Nodes {
 		switch {
 		case n.ID < firstEvent && cc.Strategy == "A":
@@ -429,6 +521,9 @@ func TestC19(t *testing.T) {
 			cl = append(cl, k)
 		}
 		cl = append(cl, "events-by="+cc.Strategy)
+		if cc.Abstract {
+			cl = append(cl, "events-of-two-types-behind-interface-and-union")
+		}
 		nt := traits["publish-with->=2-matches"] && traits["failing-delivery"] && traits["unsubscribe-proper-subset"]
 		run.Case(hx.Hash(cc), nt, cl...)
 		run.ClassN("steps", len(hist))
